@@ -113,6 +113,20 @@ def check_flag(case, ctx):
         if accepts:
             kw["reuse_gradient"] = True
         f = klass(**kw) if case["direct"] else pep.declare_function(klass, **kw)
+        # "stationary_point: create a NEW stationary point": two calls declare two minimisers (two distinct points, two
+        # stationary samples), except for the quadratic class, which documents a unique one
+        if cls != "SmoothStronglyConvexQuadraticFunction":
+            kw2 = dict(kw)
+            if cls == "SmoothStronglyConvexFunction" and case["nq"] == 2:
+                kw2["mu"] = 0                      # the way the examples declare plain L-smooth convex functions
+            f2 = klass(**kw2) if case["direct"] else pep.declare_function(klass, **kw2)
+            n0 = len(f2.list_of_stationary_points)
+            s1 = f2.stationary_point()
+            s2 = f2.stationary_point()
+            if s1 is s2 or len(f2.list_of_stationary_points) != n0 + 2:
+                ctx.fail("second-stationary-point-not-created:%s" % cls, "%s: two calls of stationary_point() gave %s and %d new "
+                         "stationary sample(s)" % (cls, "the same point" if s1 is s2 else "two points", len(f2.list_of_stationary_points) - n0))
+                return
         if accepts and f.reuse_gradient is not True:
             ctx.fail("declared-differentiable-but-flag-false:%s" % cls, "%s(reuse_gradient=True).reuse_gradient is %r" % (cls, f.reuse_gradient))
             return
